@@ -10,6 +10,9 @@ proved SQLite exception K6); and an elaboration-time walk shows no model/driver 
 Tie: the SAME scenario (generators and run_impl of c01, c02, c03, c04, c05, c11, c14 + own full pipelines + every library
 comparison creator both engines accept) is run on duckdb and sqlite (and spark in thorough) and the REAL outputs are compared
 with one another; the underlying checks' oracles say which engine deviates.
+Family "custom" (audit C06): custom SQL levels / blocking rules written in a DECLARED dialect (base_dialect_str / sql_dialect) equal to or
+different from the backend; a naive per-dialect evaluator (the _sem_* functions) decides every level and rule on every record pair under the
+declared dialect's meaning, each engine's real predict() / count_comparisons output is compared with that and the engines with one another.
 """
 from __future__ import annotations
 
@@ -1469,7 +1472,7 @@ def evaluate(ctx, scenarios, engines, parallel=True, record=True):
 # =========================================================================== shrinking
 def shrink(family, case, engines, still):
     cur = jr(case)
-    budget = 24
+    budget = 16 if family == "custom" else 24
 
     def attempt(cand):
         nonlocal budget, cur
@@ -1630,7 +1633,7 @@ def run(ctx: core.Ctx):
         known = any(core._finding_matches(f, dict(info)) for f in ctx.findings)  # a recorded finding has its minimised witness in the corpus already
         # at most 4 new classes are minimised and reported per run; the custom family (one class per idiom x declared dialect x engine) has its own allowance
         mine = [c for c in reported if c[-1] != "known" and (c[0] == "custom") == (family == "custom")]
-        if cls in reported or (not known and len(mine) >= (10 if family == "custom" else 4)):
+        if cls in reported or (not known and len(mine) >= (6 if family == "custom" else 4)):
             continue
         reported.add(cls if not known else cls + ("known",))
 
